@@ -307,7 +307,7 @@ type storageMix struct {
 var storageMixes = map[string]storageMix{
 	"storage":    {"storage", 10, 18, 5, 30, 10, 7, 12, 4, 7, 7, 10, 32},
 	"proofs":     {"proofs", 5, 14, 3, 55, 8, 3, 6, 2, 7, 6, 9, 16},
-	"payments":   {"payments", 40, 25, 8, 10, 5, 2, 4, 2, 6, 50, 100, 1024},
+	"payments":   {"payments", 40, 25, 8, 10, 5, 2, 4, 2, 6, 6, 9, 1024},
 	"plans":      {"plans", 22, 38, 22, 8, 4, 1, 2, 1, 5, 4, 6, 32},
 	"forms":      {"forms", 8, 14, 2, 30, 12, 16, 22, 2, 8, 8, 12, 32},
 	"collateral": {"collateral", 2, 3, 1, 4, 70, 2, 4, 14, 6, 8, 12, 32},
@@ -512,6 +512,11 @@ func (g *storageGen) next() (sdk.Msg, map[string]interface{}, func(pre, post stS
 			pk := f.Proofs[r.Intn(len(f.Proofs))]
 			creator = strings.Split(pk, "/")[0]
 		}
+		if r.Intn(9) == 0 && strings.HasPrefix(creator, "jkl1") {
+			// a prover is identified by the signer string as sent: the upper-case spelling is a second
+			// prover identity of the same account (listed, challenged and counted separately, paid together)
+			creator = strings.ToUpper(creator)
+		}
 		var challenge int64
 		if p, found := c.A.StorageKeeper.GetProof(c.Ctx(), creator, f.Merkle, f.Owner, f.Start); found {
 			challenge = p.ChunkToProve
@@ -626,6 +631,13 @@ func (g *storageGen) next() (sdk.Msg, map[string]interface{}, func(pre, post stS
 			f := atts[r.Intn(len(atts))]
 			if len(f.Attestations) > 0 && r.Intn(5) > 0 {
 				creator = f.Attestations[r.Intn(len(f.Attestations))].Provider
+				if r.Intn(3) == 0 { // somebody who has signed already signs again
+					for _, a := range f.Attestations {
+						if a.Complete {
+							creator = a.Provider
+						}
+					}
+				}
 			}
 			return &sttypes.MsgAttest{Creator: creator, Prover: f.Prover, Merkle: f.Merkle, Owner: f.Owner, Start: f.Start},
 				map[string]interface{}{"attest": map[string]interface{}{"creator": creator, "prover": f.Prover, "merkle": hex.EncodeToString(f.Merkle), "owner": f.Owner, "start": f.Start}}, nil
@@ -634,6 +646,13 @@ func (g *storageGen) next() (sdk.Msg, map[string]interface{}, func(pre, post stS
 			f := reps[r.Intn(len(reps))]
 			if len(f.Attestations) > 0 && r.Intn(5) > 0 {
 				creator = f.Attestations[r.Intn(len(f.Attestations))].Provider
+				if r.Intn(3) == 0 { // somebody who has signed already signs again
+					for _, a := range f.Attestations {
+						if a.Complete {
+							creator = a.Provider
+						}
+					}
+				}
 			}
 			return &sttypes.MsgReport{Creator: creator, Prover: f.Prover, Merkle: f.Merkle, Owner: f.Owner, Start: f.Start},
 				map[string]interface{}{"report": map[string]interface{}{"creator": creator, "prover": f.Prover, "merkle": hex.EncodeToString(f.Merkle), "owner": f.Owner, "start": f.Start}}, nil
@@ -718,7 +737,8 @@ func runStorage(profile string, seed int64, histories, steps int, out *Emitter) 
 				if r.Intn(3) == 0 { // real block times are not whole seconds apart
 					dt += time.Duration(r.Intn(1000)) * time.Millisecond
 				}
-				if r.Intn(8) == 0 { // the next block lands right at / just after the end of some gauge
+				nextIsReward := (c.H+1)%c.A.StorageKeeper.GetParams(c.Ctx()).CheckWindow == 0
+				if r.Intn(8) == 0 || (nextIsReward && r.Intn(3) == 0) { // the next block lands right at / just after the end of some gauge
 					gs := c.A.StorageKeeper.GetAllPaymentGauges(c.Ctx())
 					if len(gs) > 0 {
 						if d := gs[r.Intn(len(gs))].End.Sub(c.T); d > 0 && d < 500*24*time.Hour {
